@@ -473,7 +473,7 @@ def rule_remainder(ctx):
       else:
         probs.append("child does not read its parent's remainder prev[i // 2]: %r" % (v,))
     rng = as_poly(visit["iter"])
-    if rng != sym.mk("range", sym.mk("len", level)):
+    if rng != sym.mk("range", sym.mk("len", level)) and rng != sym.mk("enumerate", level):
       probs.append("per-node loop does not cover range(len(level))")
     if kind not in ("fall", "continue"):
       probs.append("per-node loop left by `%s`" % kind)
